@@ -28,6 +28,8 @@ Inductive lstmt : Set :=
   | LPass (n : N)
   | LIf (n : N) (t : texpr) (b o : list lstmt)
   | LWhile (n : N) (t : texpr) (b o : list lstmt)
+  | LBreak (n : N)
+  | LContinue (n : N)
   (* what the rewriter adds *)
   | LEmit (e : event) (n : N) (ret : option texpr) (g : option (option guard))   (* EMIT(e, n[, ret=v][, guard='G' | guard=None]) *)
   | LBefore (n : N) (thunk_branch own : list lstmt)
@@ -37,7 +39,7 @@ Inductive lstmt : Set :=
 
 Definition lid (s : lstmt) : N :=
   match s with
-  | LExpr n _ | LAssign n _ _ | LPass n | LIf n _ _ _ | LWhile n _ _ _ | LEmit _ n _ _ | LBefore n _ _ | LWhileG n _ _ _ _ _ => n
+  | LExpr n _ | LAssign n _ _ | LPass n | LIf n _ _ _ | LWhile n _ _ _ | LBreak n | LContinue n | LEmit _ n _ _ | LBefore n _ _ | LWhileG n _ _ _ _ _ => n
   | LGuardIf g _ _ _ => match g with GTest n | GBody n => n end
   | LTry _ _ => 0
   end.
@@ -61,6 +63,8 @@ Fixpoint of_ls (s : tree) (n : N) {struct s} : option lstmt :=
         | _, _ => None
         end
       else if N.eqb k kPass then match sc, fs with [], [] => Some (LPass n) | _, _ => None end
+      else if N.eqb k kBreak then match sc, fs with [], [] => Some (LBreak n) | _, _ => None end
+      else if N.eqb k kContinue then match sc, fs with [], [] => Some (LContinue n) | _, _ => None end
       else if N.eqb k kIf || N.eqb k kWhile then
         match sc, fs with
         | [], [[test]; b; o] =>
@@ -99,6 +103,8 @@ Fixpoint tls (s : lstmt) : tree :=
   | LPass _ => T kPass [] []
   | LIf _ t b o => T kIf [] [[tt t]; map tls b; map tls o]
   | LWhile _ t b o => T kWhile [] [[tt t]; map tls b; map tls o]
+  | LBreak _ => T kBreak [] []
+  | LContinue _ => T kContinue [] []
   | LEmit e n r g =>
       stmt_emit e n ((match r with Some v => [kw id_ret (tt v)] | None => [] end)
                      ++ (match g with Some g' => [guard_kw g'] | None => [] end)
@@ -176,7 +182,7 @@ Definition linstr_module (body : list lstmt) : list lstmt :=
 End Instr.
 
 (* ---------------------------------------------------------------- evaluation *)
-Inductive lexc : Set := LX (e : exc) | LFuel.           (* a Python exception, or a loop ran out of fuel *)
+Inductive lexc : Set := LX (e : exc) | LFuel | LBrk | LCnt.     (* a Python exception; a loop ran out of fuel; `break` / `continue` on their way to the loop *)
 Record lres : Set := { l_exc : option lexc; l_env : env; l_saved : val; l_log : list entry }.
 
 Section Sem.
@@ -220,9 +226,11 @@ Fixpoint lexec_s (s : lstmt) (r : env) (saved : val) (pre : list entry) {struct 
                           if truth vt then
                             let a := exec_l b r saved (pre ++ lt) in
                             match l_exc a with
+                            | Some LBrk => {| l_exc := None; l_env := l_env a; l_saved := l_saved a; l_log := lt ++ l_log a |}     (* break: no else clause *)
+                            | None | Some LCnt =>
+                                let z := loop f' (l_env a) (l_saved a) (pre ++ lt ++ l_log a) in
+                                {| l_exc := l_exc z; l_env := l_env z; l_saved := l_saved z; l_log := lt ++ l_log a ++ l_log z |}
                             | Some _ => {| l_exc := l_exc a; l_env := l_env a; l_saved := l_saved a; l_log := lt ++ l_log a |}
-                            | None => let z := loop f' (l_env a) (l_saved a) (pre ++ lt ++ l_log a) in
-                                      {| l_exc := l_exc z; l_env := l_env z; l_saved := l_saved z; l_log := lt ++ l_log a ++ l_log z |}
                             end
                           else let a := exec_l o r saved (pre ++ lt) in
                                {| l_exc := l_exc a; l_env := l_env a; l_saved := l_saved a; l_log := lt ++ l_log a |}
@@ -245,6 +253,8 @@ Fixpoint lexec_s (s : lstmt) (r : env) (saved : val) (pre : list entry) {struct 
       | Err e => {| l_exc := Some (LX e); l_env := r; l_saved := saved; l_log := l |}
       end
   | LWhile _ t b o => loop (fun r _ => eval_e t r) b o fuel r saved pre
+  | LBreak _ => {| l_exc := Some LBrk; l_env := r; l_saved := saved; l_log := [] |}
+  | LContinue _ => {| l_exc := Some LCnt; l_env := r; l_saved := saved; l_log := [] |}
   | LWhileG _ g t' t b o => loop (fun r pre => if gon pre g then eval_e t' r else eval_e t r) b o fuel r saved pre
   | LEmit e n None _ =>
       {| l_exc := None; l_env := r; l_saved := (if event_eqb e E_after_stmt then VNone else saved); l_log := [(e, n, Some VNone)] |}
@@ -306,6 +316,8 @@ Fixpoint lref_s (quiet is_module : bool) (s : lstmt) (r : env) (pre : list entry
         (lexc_of q, match q with Ok x => fold_left (fun r' y => upd r' y x) xs r | Err _ => r end,
          say ((E_before_assign_rhs, xid v, None) :: l ++ emitted E_after_assign_rhs (xid v) q), VNone)
     | LPass _ => (None, r, [], VNone)
+    | LBreak _ => (Some LBrk, r, [], VNone)
+    | LContinue _ => (Some LCnt, r, [], VNone)
     | LIf _ t b o =>
         let '(q, l) := ref_e t r in
         match q with
@@ -334,9 +346,11 @@ Fixpoint lref_s (quiet is_module : bool) (s : lstmt) (r : env) (pre : list entry
                               let a := ref_l (negb loud_b) b r (pre ++ lt ++ lb) in
                               let la := if loud_b then [(E_after_while_loop_iter, n, Some VNone)] else [] in
                               match rl_exc a with
+                              | Some LBrk => {| rl_exc := None; rl_env := rl_env a; rl_log := lt ++ lb ++ rl_log a ++ la |}
+                              | None | Some LCnt =>
+                                  let z := loop f' (rl_env a) (pre ++ lt ++ lb ++ rl_log a ++ la) in
+                                  {| rl_exc := rl_exc z; rl_env := rl_env z; rl_log := lt ++ lb ++ rl_log a ++ la ++ rl_log z |}
                               | Some _ => {| rl_exc := rl_exc a; rl_env := rl_env a; rl_log := lt ++ lb ++ rl_log a ++ la |}
-                              | None => let z := loop f' (rl_env a) (pre ++ lt ++ lb ++ rl_log a ++ la) in
-                                        {| rl_exc := rl_exc z; rl_env := rl_env z; rl_log := lt ++ lb ++ rl_log a ++ la ++ rl_log z |}
                               end
                             else let a := ref_l quiet o r (pre ++ lt) in
                                  {| rl_exc := rl_exc a; rl_env := rl_env a; rl_log := lt ++ rl_log a |}
